@@ -75,6 +75,17 @@ func (x *Exec) builtin(st *State, fr *Frame, dst ssa.Value, b *ssa.Builtin, args
 		x.oblige(st, "nopanic", fmt.Sprintf("nopanic:close-of-closed@%s#%d", ap, k), Not(st.closed(ch.Term)), pos, "")
 		st.Assume(Neq(ch.Term, IntLit(0)))
 		st.setClosed(ch.Term)
+		if c, ok := currentCall(fr).(*ssa.Call); ok && len(c.Call.Args) > 0 {
+			if u, ok := c.Call.Args[0].(*ssa.UnOp); ok {
+				if fa, ok := u.X.(*ssa.FieldAddr); ok {
+					if ns := namedStruct(pointee(fa.X.Type())); ns != nil {
+						if bv, ok := fr.Regs[fa.X]; ok && bv.Term != nil {
+							x.checkStrong(st, ns, bv.Term, "close:"+ap, pos)
+						}
+					}
+				}
+			}
+		}
 	case "recover":
 		// Go >= 1.21: recover() is non-nil while panicking (panic(nil) becomes *runtime.PanicNilError)
 		if st.Panicking && fr.IsDeferCall {
@@ -553,6 +564,7 @@ func (x *Exec) interfere(st *State, why string) {
 		st.setGhostArr("wg", nwg)
 	}
 	st.Trace = append(st.Trace, "interference@"+why)
+	x.assumeStrong(st)
 }
 
 // ownedChans: channels stored in chan-typed guarded fields of objects whose monitor is held, plus fresh channels.
@@ -758,6 +770,12 @@ func (x *Exec) selectStmt(st *State, fr *Frame, i *ssa.Select) {
 	for ci, c := range i.States {
 		ch := x.val(st, fr, c.Chan)
 		ap := accessPath(c.Chan)
+		if ap == "" {
+			if fk := chanFieldKey(c.Chan); fk != "" {
+				ap = "field:" + fk
+				x.chanKeys[ap] = fk
+			}
+		}
 		if k := chanKind(c.Chan); k != "" {
 			ap = k
 			x.note("ASSUMED: ctx.Done() channels are close-only and closed exactly when the context ends; time.After channels deliver one value and are never closed")
@@ -1143,4 +1161,64 @@ func (x *Exec) recvNonNil(ap string) bool {
 		}
 	}
 	return false
+}
+
+// checkStrong: strong invariants of a type hold at every instant, so every write to the object's
+// guarded state (and every close of a channel stored in it) must re-establish them immediately.
+func (x *Exec) checkStrong(st *State, root *types.Named, base *Term, site string, pos token.Pos) {
+	tc := x.V.C.Types[typeName(root)]
+	if tc == nil || len(tc.Strong) == 0 || st.FreshRefs[base.Op] {
+		return
+	}
+	if strings.HasPrefix(site, "store:") {
+		guarded := false
+		for _, m := range tc.Monitors {
+			if m.Guards[strings.TrimPrefix(site, "store:")] {
+				guarded = true
+			}
+		}
+		if !guarded {
+			return // strong invariants speak about guarded state only
+		}
+	}
+	env := &Env{V: x.V, X: x, St: st, Vars: map[string]*Val{}, Pkg: x.V.P.TPkgs[tc.Pkg], Epoch: st.Epoch}
+	env.Vars[tc.Self] = &Val{T: types.NewPointer(root), Term: base}
+	k := x.site(st, "strong:"+site)
+	for _, inv := range tc.Strong {
+		x.oblige(st, "monitor", fmt.Sprintf("monitor:strong:%s@%s#%d", inv.Label, site, k), x.V.evalBool(env, inv.E), pos, inv.Text)
+	}
+}
+
+// assumeStrong: assume the strong invariants of the objects named by `ghost strong EXPR` clauses.
+func (x *Exec) assumeStrong(st *State) {
+	if x.FC == nil || len(st.Frames) == 0 {
+		return
+	}
+	for _, cl := range x.FC.Of("ghost") {
+		if !strings.HasPrefix(cl.Text, "strong ") {
+			continue
+		}
+		e, err := ParseExpr(strings.TrimPrefix(cl.Text, "strong "))
+		if err != nil {
+			panic(unsupported{err.Error()})
+		}
+		env := x.envAt(st, st.Frames[0])
+		ov := x.V.eval(env, e)
+		if ov.Term == nil || pointee(ov.T) == nil {
+			continue
+		}
+		ns := namedStruct(pointee(ov.T))
+		if ns == nil {
+			continue
+		}
+		tc := x.V.C.Types[typeName(ns)]
+		if tc == nil {
+			continue
+		}
+		ienv := &Env{V: x.V, X: x, St: st, Vars: map[string]*Val{}, Pkg: x.V.P.TPkgs[tc.Pkg], Epoch: st.Epoch}
+		ienv.Vars[tc.Self] = ov
+		for _, inv := range tc.Strong {
+			st.Assume(Implies(Neq(ov.Term, IntLit(0)), x.V.evalBool(ienv, inv.E)))
+		}
+	}
 }
